@@ -418,7 +418,7 @@ def eval_in_simulation(ctx, n):
         idx_of = {e['name']: i + 1 for i, e in enumerate(chain)}
         # mating partner and role of every element from the declared relations
         mate, role = {}, {}
-        for r in spec['rels']:
+        for r in sim.all_rels(spec):
             if r[0] in ('gear', 'worm'):
                 a, c = spec['elems'][r[1] - 1]['name'], spec['elems'][r[2] - 1]['name']
                 mate[a], mate[c] = c, a
